@@ -142,6 +142,12 @@ def _split_top(args_txt):
             cur.append(args_txt[i:j + 1])
             i = j + 1
             continue
+        if c == "<" and args_txt[max(0, i - 2):i] == "::":
+            # turbofish `::<..>`: its commas do not separate arguments
+            j = args_txt.index(">", i)
+            cur.append(args_txt[i:j + 1])
+            i = j + 1
+            continue
         if c in "([{":
             depth += 1
         elif c in ")]}":
@@ -221,6 +227,58 @@ def msg_rule(txt, shaped=False):
     if shaped:
         txt = re.sub(r'"(?:[^"\\]|\\.)*"\s*\.to_string\(\)', lit, txt)
     return txt
+
+
+ROW_LABELS = {"DATA": 0, "TDH": 1, "TDT": 2, "IHW": 3, "DDW": 4, "CDW": 5}
+
+
+def _row_tokens(lit, pos_args):
+    """ordered content of one format literal: label words, captured identifiers and positional arguments"""
+    out = []
+    k = 0
+    i = 0
+    for m in re.finditer(r"\{([^{}]*)\}", lit):
+        for w in re.findall(r"\b(DATA|TDH|TDT|IHW|DDW|CDW)\b", lit[i:m.start()]):
+            out.append(f"&tok_label({ROW_LABELS[w]})")
+        i = m.end()
+        name = m.group(1).split(":")[0].strip()
+        if name == "" or name.isdigit():
+            idx = int(name) if name else k
+            if name == "":
+                k += 1
+            out.append(f"&({pos_args[idx]})" if idx < len(pos_args) else "&tok_missing()")
+        else:
+            out.append(f"&{name}")
+    for w in re.findall(r"\b(DATA|TDH|TDT|IHW|DDW|CDW)\b", lit[i:]):
+        out.append(f"&tok_label({ROW_LABELS[w]})")
+    expr = "tok_nil()"
+    for t in reversed(out):
+        expr = f"tok_cons({t}, {expr})"
+    return expr
+
+
+def row_rule(txt):
+    """row-content rule (unit v_rows): every `format!` / `format_args!` / `writeln!(w, ..)` is replaced by the ordered list
+    of what it renders - the word-type label found in the literal (DATA/TDH/TDT/IHW/DDW/CDW), the identifiers captured
+    in the literal and the positional arguments, in the order of the literal - as nested `tok_cons(&x, ..)` calls;
+    `writeln!(w, ..)` becomes `emit_row(w, <list>)`. Column widths, spacing and the rest of the literal are dropped."""
+    while True:
+        ms = list(re.finditer(r"\b(format_args|format|writeln)!\s*\(", txt))
+        if not ms:
+            return txt
+        # innermost first: the last macro start has no macro inside it
+        m = ms[-1]
+        e = _match_paren(txt, m.end() - 1)
+        args = _split_top(txt[m.end():e - 1])
+        args = [a for a in args if a != ""]
+        if m.group(1) == "writeln":
+            w, lit, rest = args[0], args[1], args[2:]
+        else:
+            w, lit, rest = None, args[0], args[1:]
+        lm = re.match(r'^"((?:[^"\\]|\\.)*)"$', lit, re.S)
+        body = _row_tokens(lm.group(1) if lm else "", rest)
+        rep = f"emit_row({w}, {body})" if w else body
+        txt = txt[:m.start()] + rep + txt[e:]
 
 
 def expand_validate_fields(e):
@@ -334,6 +392,8 @@ def extract_item(e, vac=False):
         if item.count(ins["after"]) != 1:
             raise ExtractError(f"lost anchor for annotation: `{ins['after']}` in {e['key']}")
         item = item.replace(ins["after"], ins["after"] + "\n" + ins["text"] + "\n")
+    if e.get("row_rule"):
+        item = row_rule(item)
     if e.get("msg_rule"):
         item = msg_rule(item, {"shaped": True, "at": "at", "at_bytes": "at_bytes"}.get(e.get("msg_rule"), False))
     if e.get("kind", "fn") == "fn":
